@@ -963,7 +963,9 @@ LEVEL_TEXT = ('Machine-checked theorems, for lineages and ACLs of any size, stat
               'C11_chain_world_acls ties the world the harness builds to the ACL list of the case. Monotonicity in the ancestors '
               '(C11_permits_ancestors_irrelevant_once_decided, C11_permits_inherits_when_undecided_generated, '
               'C11_world_permits_ancestors, C11_has_permission_ancestors): a decision taken by an ACE of the lineage is unchanged by '
-              'anything put above it, an undecided lineage inherits exactly the ancestors\' decision. The extracted program is '
+              'anything put above it, an undecided lineage inherits exactly the ancestors\' decision; for the reported principals '
+              'C11_principals_allowed_child / _descendants_generated: q is reported below a lineage iff the first entry speaking about q '
+              'in the descendants is an Allow, or there is none and q is reported for the lineage. The extracted program is '
               'run differentially against the code through ACLHelper, ACLAuthorizationPolicy, request.has_permission (explicit and '
               'default context, with and without policy), security.principals_allowed_by_permission and view_execution_permitted.')
 LEVEL_NOTE = ('Trusted: Coq kernel; the translator (mechanical control-flow rules + the primitive table in the docstring of '
